@@ -163,4 +163,34 @@ def lllDiag (dn dd en ed q : Int) (lat red : Mat4) : Nat :=
 def lllRetCheck (dn dd en ed q : Int) (lat : Mat4) (ret : Int) (red : Mat4) : Bool :=
   if det lat = 0 then ret == -1 else ret == 0 && lllCheck dn dd en ed q lat red
 
+/-! ## the repaired routine (repo commit ba3b4ab, "fix: quat_lattice_lll reports rank-deficient input ...")
+
+`quat_lattice_lll` now BEGINS with the exact rank test
+  `full_rank = ibz_mat_4x4_inv_with_det_as_denom(NULL, &det, &lattice->basis); if (!full_rank) return -1;`
+(`ibz_mat_4x4_inv_with_det_as_denom` = `Mat4.invWithDet`, verified in SqiProofs/QuatMat.lean: its second component is the
+determinant) before any float is touched, and only then sets the float precision
+  `mpf_set_default_prec(2*logdet + 4*ibz_bitsize(q) + 128)`,  logdet = sum over rows of the max bitsize
+(formerly `2*logdet`, which ignored q).  The floats themselves are still not modelled: what they decide is the
+operation list and whether the remaining float test `B[k] == 0.0` fires. -/
+
+/-- the entry guard: `some (-1)` = the routine returns -1 at once, `none` = it goes on to the float loop -/
+def lllGuard (lat : Mat4) : Option Int := if lat.invWithDet.2 = 0 then some (-1) else none
+
+/-- everything the floats decide -/
+structure Trace where
+  ops : List Op
+  floatZero : Bool      -- the float test `mpf_get_d(B[k]) == 0.0` fired (then ret = -1)
+
+/-- `bitsize` as `mpz_sizeinbase(.,2)` (1 for 0) and the precision the repaired routine asks for -/
+def bitsize (a : Int) : Nat := if a = 0 then 1 else Nat.log2 a.natAbs + 1
+def rowMaxBits (r : Vec4) : Nat := max (max (bitsize r.x0) (bitsize r.x1)) (max (bitsize r.x2) (bitsize r.x3))
+def logdetBound (lat : Mat4) : Nat := rowMaxBits lat.r0 + rowMaxBits lat.r1 + rowMaxBits lat.r2 + rowMaxBits lat.r3
+def lllPrecision (q : Int) (lat : Mat4) : Nat := 2 * logdetBound lat + 4 * bitsize q + 128
+
+/-- the repaired routine for an arbitrary float trace: (return value, `red` if written) -/
+def lllRepaired (t : Trace) (lat : Mat4) : Int × Option Mat4 :=
+  match lllGuard lat with
+  | some r => (r, none)
+  | none => if t.floatZero then (-1, none) else (0, some (runCols t.ops lat))
+
 end SqiModel.Lll
